@@ -81,6 +81,90 @@ func (w *envWorld) dump(e *env.Env) string {
 	return "{" + p + " v[" + strings.Join(vs, " ") + "] t[" + strings.Join(ts, " ") + "]}"
 }
 
+// own tables of every scope, read through the public API (a scope's own binding shadows its parents')
+type envSnap struct {
+	vals, types []map[string]string
+	ext         []bool
+	parent      []int
+}
+
+func (w *envWorld) snapshot() envSnap {
+	var sn envSnap
+	for _, e := range w.envs {
+		vs, ts := map[string]string{}, map[string]string{}
+		for _, s := range e.GetValueSymbols() {
+			v, _ := e.Get(s)
+			vs[s] = w.showV(v)
+		}
+		for _, s := range e.GetTypeSymbols() {
+			t, _ := e.Type(s)
+			ts[s] = "t:" + strings.ReplaceAll(t.String(), " ", "_")
+		}
+		sn.vals = append(sn.vals, vs)
+		sn.types = append(sn.types, ts)
+		x := reflect.ValueOf(e).Elem().FieldByName("externalLookup")
+		sn.ext = append(sn.ext, x.IsValid() && !x.IsNil())
+		pi := -1
+		if p := parentOf(e); p != nil {
+			if id, ok := w.ids[p]; ok {
+				pi = id
+			} else {
+				pi = -2 // a parent the harness does not track (never happens: every scope is registered)
+			}
+		}
+		sn.parent = append(sn.parent, pi)
+	}
+	return sn
+}
+
+// the chain-of-dictionaries reading of the property, evaluated on a snapshot
+func (sn envSnap) refGet(i int, name string) (string, bool) {
+	for j := i; j >= 0; j = sn.parent[j] {
+		if v, ok := sn.vals[j][name]; ok {
+			return v, true
+		}
+		if sn.ext[j] {
+			if v, err := (extLookup{}).Get(name); err == nil {
+				return fmt.Sprintf("(i %d)", v.Int()), true
+			}
+		}
+	}
+	return "", false
+}
+
+var envBuiltinTypes = map[string]string{"int64": "t:int64", "rune": "t:int32"}
+
+func (sn envSnap) refType(i int, name string) (string, bool) {
+	for j := i; j >= 0; j = sn.parent[j] {
+		if t, ok := sn.types[j][name]; ok {
+			return t, true
+		}
+		if sn.ext[j] {
+			if t, err := (extLookup{}).Type(name); err == nil {
+				return "t:" + strings.ReplaceAll(t.String(), " ", "_"), true
+			}
+		}
+	}
+	t, ok := envBuiltinTypes[name]
+	return t, ok
+}
+
+func (sn envSnap) owner(i int, name string) int {
+	for j := i; j >= 0; j = sn.parent[j] {
+		if _, ok := sn.vals[j][name]; ok {
+			return j
+		}
+	}
+	return -1
+}
+
+func (sn envSnap) root(i int) int {
+	for sn.parent[i] >= 0 {
+		i = sn.parent[i]
+	}
+	return i
+}
+
 func (w *envWorld) dumpAll() []string {
 	out := make([]string, len(w.envs))
 	for i, e := range w.envs {
@@ -109,6 +193,7 @@ func streamEnvAPI(o *Out, r *rand.Rand, n int, thorough bool) {
 			name := envNames[r.Intn(len(envNames))]
 			val := int64(r.Intn(10))
 			before := w.dumpAll()
+			snap := w.snapshot()
 			var op, res string
 			mutatesOnly := -1 // scope that may change (-1 = none may, -2 = unknown)
 			isErr := false
@@ -261,6 +346,39 @@ func streamEnvAPI(o *Out, r *rand.Rand, n int, thorough bool) {
 			o.Sum.Hist["op:"+strings.Fields(op)[0][1:]]++
 			// oracles on the real environments
 			after := w.dumpAll()
+			opName := strings.Fields(op)[0][1:]
+			histStr := func() string { return strings.Join(hist, " ") }
+			if !strings.Contains(name, ".") {
+				switch opName {
+				case "get":
+					want, ok := snap.refGet(i, name)
+					if ok != !isErr || (ok && want != res) {
+						o.Fail(Failure{Oracle: "nearest-binding", Key: "env-get-not-nearest", Input: histStr(), Detail: fmt.Sprintf("%s returned %s; the nearest enclosing binding (own table, external lookup, then parent) is %q (found %v)", op, res, want, ok)})
+					}
+				case "type":
+					want, ok := snap.refType(i, name)
+					if ok != !isErr || (ok && want != res) {
+						o.Fail(Failure{Oracle: "nearest-binding", Key: "env-type-not-nearest", Input: histStr(), Detail: fmt.Sprintf("%s returned %s; nearest enclosing type binding (own table, external lookup, parent, built-in names last) is %q (found %v)", op, res, want, ok)})
+					}
+				case "set":
+					own := snap.owner(i, name)
+					if (own >= 0) == isErr {
+						o.Fail(Failure{Oracle: "set-nearest-or-fail", Key: "env-set-status", Input: histStr(), Detail: fmt.Sprintf("%s returned %s; a binding exists on the chain: %v", op, res, own >= 0)})
+					}
+					if own >= 0 {
+						mutatesOnly = own
+					}
+				case "delglobal":
+					mutatesOnly = snap.owner(i, name)
+					if mutatesOnly < 0 {
+						mutatesOnly = -1
+					}
+				case "defglobal", "defglobaltype":
+					if !isErr {
+						mutatesOnly = snap.root(i)
+					}
+				}
+			}
 			for j := range before {
 				if before[j] == after[j] {
 					continue
